@@ -111,8 +111,8 @@ class Case:
         if any(not mixin_ok(m) for ms in self.op_mixins for m in ms) or any(not mixin_ok(m) for m in self.frag_dirs):
             self.conditions.add("bad-mixin-args")
         self.modules = [None if o.name is None else scen.method_name(o.name.value) for o in self.ops]
-        # "colliding file names": among the names the generator checks, between two operations (F29: the check
-        # works on dict keys) or with a file written unchecked (F28) — the documented refusal applies to all
+        # "colliding file names": among ALL the files generate() writes (incl. custom_*.py, __init__.py) or between
+        # two operations (since d2e37b3 the generator checks all of them; former findings C04-F28/C04-F29)
         names = self.checked_names()
         mods = [m for m in self.modules if m is not None]
         if len(names) != len(set(names)) or len(mods) != len(set(mods)) or set(self.unchecked_names()) & set(names):
@@ -159,32 +159,17 @@ class Case:
             names.append("exceptions.py")
         return names
 
-    # ---- finding-class predicates (known_findings/C04.json) ----
+    # ---- finding-class predicates (known_findings/C04.json; only OPEN classes have a predicate: the fixed
+    # ones — F5 quotes/block strings, F7 self/kwargs, F25 pruning, F28/F29 file-name collisions, F30 input module
+    # name — are ordinary inputs now, a failure there is a VIOLATION) ----
     def classes(self) -> set:
         out = set()
-        cfg = self.sc.config
         if S.has_untyped_inline(self.doc):
-            out.add("F2-untyped-inline-fragment")
-        if "'" in (self.sc.queries or "") or '"""' in (self.sc.queries or ""):
-            out.add("F5-quote-or-block-string-in-operation")
-        snake = cfg.get("convert_to_snake_case", True)
-        for o in self.ops:
-            for v in o.variable_definitions or ():
-                if scen.param_name(v.variable.name.value, snake) in ("self", "kwargs"):
-                    out.add("F7-self-kwargs-variable")
+            out.add("C04-F2-untyped-inline-fragment")
         if S.foreign_conditions(self.schema, self.doc):
-            out.add("F23-abstract-type-condition")
-        if self.custom_ops and not (cfg.get("include_all_inputs", True) and cfg.get("include_all_enums", True)):
-            out.add("F25-custom-operations-pruned-types")
-        if set(self.unchecked_names()) & set(self.checked_names()):
-            out.add("F28-unchecked-file-names")
-        mods = [m for m in self.modules if m is not None]
-        if len(mods) != len(set(mods)):
-            out.add("F29-colliding-operation-modules")
-        if self.custom_ops and cfg.get("input_types_module_name", "input_types") != "input_types":
-            out.add("F30-custom-operations-input-module-name")
+            out.add("C04-F23-abstract-type-condition")
         if re.search(r"(?<![A-Za-z0-9_])_+[0-9]", self.sc.sdl + (self.sc.queries or "")):
-            out.add("F18-underscore-digit-name")
+            out.add("C04-F18-underscore-digit-name")
         return out
 
     def replay(self, **extra) -> dict:
@@ -303,16 +288,16 @@ CUSTOM = {"enable_custom_operations": True}
 # minimised inputs of every finding class and of every documented refusal; run first, deterministically
 CORPUS = [
     ("F2", "query Q($c: Boolean!) { animal { ... @include(if: $c) { name } } }", {}),
-    ("F5-quote", 'query Q { s(x: "it\'s") }', {}),
-    ("F5-block", 'query Q { s(x: """block\n  string""") }', {}),
-    ("F7-self", "query Q($self: ID!) { node(id: $self) { id } }", {}),
-    ("F7-kwargs", "query Q($kwargs: ID!) { node(id: $kwargs) { id } }", {}),
+    ("fixed-F5-quote", 'query Q { s(x: "it\'s") }', {}),
+    ("fixed-F5-block", 'query Q { s(x: """block\n  string""") }', {}),
+    ("fixed-F7-self", "query Q($self: ID!) { node(id: $self) { id } }", {}),
+    ("fixed-F7-kwargs", "query Q($kwargs: ID!) { node(id: $kwargs) { id } }", {}),
     ("F23", "query Q { animal { ... on Node { id } name } }", {}),
-    ("F25", "query Q { animal { name } }", dict(CUSTOM, include_all_enums=False, include_all_inputs=False)),
-    ("F28-custom-fields", "query customFields { s }", CUSTOM),
-    ("F28-custom-queries", "query customQueries { s }", CUSTOM),
-    ("F29", "query GetX { s } query getX { animal { name } }", {}),
-    ("F30", "query Q { s }", dict(CUSTOM, input_types_module_name="inputs")),
+    ("fixed-F25", "query Q { animal { name } }", dict(CUSTOM, include_all_enums=False, include_all_inputs=False)),
+    ("fixed-F28-refused-custom-fields", "query customFields { s }", CUSTOM),
+    ("fixed-F28-refused-custom-queries", "query customQueries { s }", CUSTOM),
+    ("fixed-F29-refused", "query GetX { s } query getX { animal { name } }", {}),
+    ("fixed-F30", "query Q { s }", dict(CUSTOM, input_types_module_name="inputs")),
     ("refuse-anonymous", "{ s }", {}),
     ("refuse-subscription-sync", "subscription T { tick }", {"async_client": False}),
     ("refuse-duplicate-files", "query client { s }", {}),
@@ -321,6 +306,7 @@ CORPUS = [
     ("ok-subscription-async", "subscription T { tick }", {"async_client": True}),
     ("ok-custom-operations", "query Q { animal { name } }", CUSTOM),
     ("ok-op-named-like-unwritten-custom-file", "query customFields { s }", {}),
+    ("ok-same-class-name-in-two-modules", "query Foo { animal { name } } query FooAnimal { s }", {}),
 ]
 
 
@@ -504,15 +490,9 @@ def judge(case: Case, g, ld) -> dict:
 
 
 SYMPTOMS = {
-    "F2-untyped-inline-fragment": lambda k, d: k == "generation-crash" and "AttributeError" in d and "NoneType" in d,
-    "F5-quote-or-block-string-in-operation": lambda k, d: k == "generation-crash" and "InvalidInput" in d,
-    "F7-self-kwargs-variable": lambda k, d: k == "import-failed" and "duplicate argument" in d,
-    "F23-abstract-type-condition": lambda k, d: k == "generation-crash" and "ParsingError" in d and "not found in type" in d,
-    "F25-custom-operations-pruned-types": lambda k, d: k == "import-failed" and "cannot import name" in d and "custom_" in d,
-    "F28-unchecked-file-names": lambda k, d: k in ("import-failed", "reported-files", "modules-listed"),
-    "F29-colliding-operation-modules": lambda k, d: k == "operation-without-own-method" or (k == "import-failed" and "cannot import name" in d),
-    "F30-custom-operations-input-module-name": lambda k, d: k == "import-failed" and "No module named" in d and ".input_types'" in d,
-    "F18-underscore-digit-name": lambda k, d: (k == "generation-crash" and "InvalidInput" in d) or (k == "import-failed" and "SyntaxError" in d),
+    "C04-F2-untyped-inline-fragment": lambda k, d: k == "generation-crash" and "AttributeError" in d and "NoneType" in d,
+    "C04-F23-abstract-type-condition": lambda k, d: k == "generation-crash" and "ParsingError" in d and "not found in type" in d,
+    "C04-F18-underscore-digit-name": lambda k, d: (k == "generation-crash" and "InvalidInput" in d) or (k == "import-failed" and "SyntaxError" in d),
 }
 
 
@@ -645,12 +625,6 @@ def account(ctx, c: Case, g, ld, m, v, to_shrink, seen_classes):
         # a model/code disagreement on an input whose K3 failure is a known finding is that finding again
         if handled_by_class and kind in ("k1-refusal", "k1-files", "k1-reported", "k1-methods"):
             continue
-        if classes & {"F29-colliding-operation-modules", "F28-unchecked-file-names"} and kind in ("k1-init-imports", "k1-all"):
-            continue  # the names of the overwritten module cannot be read back: no model input for them
-        if "F29-colliding-operation-modules" in classes and kind == "k1-refusal" and g.res.get("exc") and refusal_of(g.res["exc"]) == "duplicate-files":
-            continue  # repaired tree: the collision is refused
-        if "F28-unchecked-file-names" in classes and kind == "k1-refusal" and g.res.get("exc") and refusal_of(g.res["exc"]) == "duplicate-files":
-            continue
         run.violation(f"[{c.stream}] K1 {kind}: {detail[:500]}", rep(), found_input=bool(problems))
     if len(run.samples) < 6 and c.stream in ("main", "subscriptions", "bad_mixin", "dup_files", "unchecked_files", "colliding_ops"):
         if not any(s.get("stream") == c.stream for s in run.samples):
@@ -669,9 +643,7 @@ def k1_compare(c: Case, g, ld, m, v) -> list:
         elif v["refusal"] != m[1]:
             out.append(("k1-refusal", f"model refuses with {m[1]}, generator raised {v.get('exc')}"))
         return out
-    _ok, written, reported, imports, all_, guard = m
-    if (guard == "f") != ("F28-unchecked-file-names" in c.classes()):
-        out.append(("k1-guard", f"model guard g_c04_files = {guard}, harness class predicate F28 = {'F28-unchecked-file-names' in c.classes()}"))
+    _ok, written, reported, imports, all_, methods = m
     if not g.ok:
         out.append(("k1-refusal", f"model generates, generator raised {v.get('exc')}"))
         return out
@@ -687,6 +659,10 @@ def k1_compare(c: Case, g, ld, m, v) -> list:
         out.append(("k1-init-imports", f"model {mi} vs __init__ {ini['imports']}"))
     if all_ != ini["all"]:
         out.append(("k1-all", f"model {all_} vs __all__ {ini['all']}"))
+    extra = {"execute_custom_operation", "query", "mutation", "get_data", "execute", "execute_ws"}
+    real_methods = [x for x in (ld or {}).get("methods", {}) if x not in extra]
+    if ld and ld.get("ok") and real_methods != methods:
+        out.append(("k1-methods", f"model {methods} vs client class {real_methods}"))
     if ini["other"]:
         out.append(("k1-init-other", f"{ini['other']} statements in __init__ besides from-imports and __all__"))
     return out
